@@ -429,7 +429,7 @@ def c03(cases, res):
 
 def c04(cases, res):
     out = []
-    checked = honoured = 0
+    checked = honoured = logged = 0
     for case in cases:
         for i, prev, s in steps_with_prev(case):
             sels = parse_sels(s.snap.get("sels", ""))
@@ -439,6 +439,24 @@ def c04(cases, res):
             for (b, e, _, t) in sels:
                 if not (b < e <= len(syms)) or len(t) != e - b or any(not x.startswith("S") for x in syms[b:e]):
                     out.append(fail("selection-malformed", case, i, "%s over %s" % ((b, e, t), syms)))
+            # every conversion the implementation computed DURING the op (auto-commit, commit, candidate lists ...: the
+            # hook's log carries the composition it was computed for) shows every choice recorded in that composition
+            for cv in (s.convs or []):
+                ivs = cv.get("ivs") or []
+                pos, flat, ok = 0, [], True
+                for (b, e, _, text) in ivs:
+                    if b != pos or e <= b or len(text) != e - b:
+                        ok = False
+                        break
+                    flat += list(text)
+                    pos = e
+                if not ok or pos != len(lst(cv.get("syms", ""))):
+                    continue
+                for (b, e, _, t) in parse_sels(cv.get("sels", "")):
+                    logged += 1
+                    if len(t) == e - b and tuple(flat[b:e]) != t:
+                        out.append(fail("selection-not-displayed", case, i, "during the op: choice %s shown as %s (conversion %s)" % ((b, e, t), flat[b:e], ivs)))
+                        break
             # ... and is displayed at its own range; no interval spans a break
             if s.obs and s.obs.get("display") is not None and s.obs.get("tiling") == "1":
                 disp = [int(x) for x in s.obs.get("display", "").split(".") if x]
@@ -522,6 +540,7 @@ def c04(cases, res):
                     out.append(fail("choice-not-preserved", case, i, "expected %s got %s" % (sorted(exp), sorted(sels))))
     res.notes["oracle_edit_steps_checked"] = checked
     res.notes["oracle_choices_checked_in_display"] = honoured
+    res.notes["oracle_choices_checked_in_logged_conversions"] = logged
     return out
 
 
@@ -648,7 +667,9 @@ def c07(cases, res):
                                 if "." not in kk:
                                     singles.update(ws)
                         rest = cands[len(exp):]
-                        if all(x in singles for x in rest) and len(set(cands)) == len(cands):
+                        # a character that has the main reading AND an alternative one is listed under both (the
+                        # property does not ask for a list without repetitions; the model lists it twice as well)
+                        if all(x in singles for x in rest):
                             exp = cands
                     if exp != cands:
                         out.append(fail("candidate-list-incomplete", case, i, "range %d-%d expected %s got %s" % (b, e, exp, cands)))
@@ -800,10 +821,21 @@ def c08(cases, res):
     the syllables it covers with a frequency not below the one it had (in either layer); with learning
     disabled the user dictionary is untouched by the commit"""
     out = []
-    commits = learned = disabled = singles = 0
+    commits = learned = disabled = singles = quiet = 0
     for case in cases:
         sys_ = case_dict(case)
         for i, prev, s in steps_with_prev(case):
+            # with learning disabled NO key event and no choice changes the user dictionary - the two explicit
+            # add-phrase gestures excepted (Ctrl-digit while editing, Enter over a marked range); the statement of
+            # Proofs/DictFrame.process_keyevent_dk, checked on the implementation's own snapshots
+            if prev is not None and prev.obs is not None and s.obs is not None and "user" in prev.obs and "user" in s.obs \
+                    and len(opts_of(prev)) > 5 and opts_of(prev)[5] and (is_key(s) or s.op[0] in ("select", "cchoose")):
+                gesture = is_key(s) and ((state_of(prev) == "Entering" and 1 <= key_code(s) <= 10 and key_mods(s)[1])
+                                         or (state_of(prev) == "Highlighting" and key_code(s) == KC["Enter"]))
+                if not gesture:
+                    quiet += 1
+                    if user_dict_of(prev) != user_dict_of(s):
+                        out.append(fail("learned-although-disabled", case, i, "a key in state %s: before %s after %s" % (state_of(prev), user_dict_of(prev), user_dict_of(s))))
             if prev is None or prev.obs is None or s.obs is None or prev.dconv is None:
                 continue
             whole = (is_key(s) and key_code(s) == KC["Enter"] and state_of(prev) == "Entering" and lst(prev.snap.get("syms", ""))
@@ -862,4 +894,5 @@ def c08(cases, res):
     res.notes["oracle_whole_buffer_commits"] = commits
     res.notes["oracle_phrases_checked"] = learned
     res.notes["oracle_commits_with_learning_disabled"] = disabled
+    res.notes["oracle_keys_with_learning_disabled"] = quiet
     return out
